@@ -584,6 +584,79 @@ Section Step.
       + destruct HS02 as (_ & [[l M1] _ _ _] & _). exists l. exact M1.
   Qed.
 
+  (* ---------- the growing loop terminates: after the first round every further round must end strictly farther, and
+     ends stay within the input, so |input| - start + 2 rounds always suffice (whatever the rule body does) ---------- *)
+  Definition rounds_left (depth : nat) (s0 : pstate) (last : rtuple) : nat :=
+    if Nat.eqb depth 0 then length (cData c) - cur_off s0 + 2
+    else length (cData c) - offset (sp_pos (rt_end last)) + 1.
+
+  Lemma leader_loop_fuel r s0 startMark : I c s0 -> startMark = pt s0 ->
+    (forall s, parseRule wrap r s <> OutOfFuel) ->
+    forall n depth last lastErrs s,
+      Step s0 s -> cur_off s = cur_off s0 -> last_ok s0 s last ->
+      (exists l, lastErrs = errs s0 ++ l) ->
+      rounds_left depth s0 last <= n ->
+      leader_loop c wrap n r startMark depth last lastErrs s <> OutOfFuel.
+  Proof.
+    intros HI0 Hsm Hnf. induction n as [|n IH]; intros depth last lastErrs s HS Hoff (L1 & L2 & L3) Herr Hn;
+      cbn [leader_loop].
+    { unfold rounds_left in Hn. destruct (Nat.eqb depth 0); lia. }
+    unfold bind, modify, ret.
+    pose proof (StepEq_clone s (proj1 HS)) as H1.
+    assert (Hsv : has_state (cT c) = true -> fst (cloneState c s) = st s).
+    { intros Hh. unfold cloneState. rewrite Hh. reflexivity. }
+    assert (Hst1 : st (snd (cloneState c s)) = st s).
+    { unfold cloneState. destruct (has_state (cT c)); reflexivity. }
+    destruct (cloneState c s) as [lastState s1]. cbn [fst snd] in *.
+    set (s1' := setMemoized startMark (KRule (r_name r)) last s1).
+    assert (H2 : StepEq s1 s1').
+    { unfold s1', setMemoized. destruct H1 as [[[A B C0] _] _].
+      split; [refine (conj _ (conj _ (conj _ _))); [constructor | constructor | constructor | ] | ];
+        try solve [fin]; try (exists []; rewrite ?app_nil_r; reflexivity).
+      cbn. constructor; [|exact B]. unfold entry_ok. subst startMark. split; [exact L1|].
+      split; [intros Hb; apply (L3 Hb) | exact L2]. }
+    pose proof (parseRule_spec r s1' (proj1 (proj1 H2))) as Hr.
+    pose proof (Hnf s1') as Hnf1.
+    destruct (parseRule wrap r s1') as [[v b] s2|pv s2|]; cbn; [|discriminate|congruence].
+    pose proof (StepEq_trans _ _ _ H1 H2) as [H12 Ho12].
+    pose proof (Step_trans _ _ _ HS (Step_trans _ _ _ H12 (Post_Step _ _ _ Hr))) as HS02.
+    match goal with |- context [if ?cnd then _ else _] => destruct cnd eqn:Hexit end; cbn; [discriminate|].
+    apply orb_false_iff in Hexit as [Hex1 Hex2]. apply negb_false_iff in Hex1. subst b.
+    apply IH.
+    + destruct HS02 as ([A B C0] & [M1 M2 M3 M4] & [F1 F2 F3 F4 F5] & D).
+      destruct (restore_other startMark s2) as (Q1 & Q2 & Q3 & Q4 & Q5 & Q6 & Q7 & Q8 & Q9 & Q10 & Q11).
+      refine (conj _ (conj _ (conj _ _))); [constructor | constructor | constructor | ].
+      all: rewrite ?Q1, ?Q2, ?Q3, ?Q4, ?Q5, ?Q6, ?Q7, ?Q8, ?Q9; auto.
+      * apply restore_pt_ok; [subst startMark; apply HI0 | exact A].
+      * unfold cnt_ok in *. rewrite Q2. exact C0.
+      * rewrite restore_off. subst startMark. unfold cur_off. lia.
+    + rewrite restore_off. subst startMark. reflexivity.
+    + split; [apply HS02|]. split; [apply HS02|]. cbn. intros Hb; discriminate.
+    + destruct HS02 as (_ & [[l M1] _ _ _] & _). exists l. exact M1.
+    + destruct HS02 as ([A _ _] & _ & _ & D). destruct A as (_ & _ & Lend).
+      unfold rounds_left in *. cbn [Nat.eqb rt_end]. unfold cur_off in *.
+      destruct (Nat.eqb_spec depth 0) as [->|Hd]; [lia|].
+      cbn [negb andb] in Hex2. rewrite andb_true_r in Hex2. apply Nat.leb_gt in Hex2. lia.
+  Qed.
+
+  Lemma leader_terminates n r s : I c s ->
+    (forall s', parseRule wrap r s' <> OutOfFuel) ->
+    length (cData c) + 2 <= n ->
+    parseRuleRecursiveLeader c wrap n r s <> OutOfFuel.
+  Proof.
+    intros HI Hnf Hn. unfold parseRuleRecursiveLeader.
+    destruct (getMemoized (KRule (r_name r)) s) as [res|]; [discriminate|].
+    unfold bind, modify, ret.
+    assert (Hl : leader_loop c wrap n r (pt s) 0 (mkRt VNil false (pt s)) (errs s) s <> OutOfFuel).
+    { apply (leader_loop_fuel r s (pt s) HI eq_refl Hnf); auto.
+      - apply Step_refl. exact HI.
+      - split; [apply HI|]. split; [unfold cur_off; cbn; lia|]. intros _. split; [reflexivity|auto].
+      - exists []. rewrite app_nil_r. reflexivity.
+      - unfold rounds_left. cbn [Nat.eqb]. lia. }
+    destruct (leader_loop c wrap n r (pt s) 0 (mkRt VNil false (pt s)) (errs s) s) as [last s'|pv s'|];
+      [discriminate|discriminate|contradiction].
+  Qed.
+
   Lemma parseRuleRecursiveLeader_spec n r s : I c s -> res_spec c s (parseRuleRecursiveLeader c wrap n r s).
   Proof.
     intros HI. unfold parseRuleRecursiveLeader.
